@@ -15,7 +15,7 @@ var Seq atomic.Int64
 
 // GWrite is one write accepted by a GateConn.
 type GWrite struct {
-	Data     []byte
+	Data      []byte
 	Arrived   int64 // Seq when the call arrived
 	Granted   int64 // Seq when it was let through
 	ArrivedAt time.Time
@@ -179,7 +179,7 @@ func (c *GateConn) Close() error {
 	return nil
 }
 
-func (c *GateConn) SetDeadline(t time.Time) error { return c.SetWriteDeadline(t) }
+func (c *GateConn) SetDeadline(t time.Time) error     { return c.SetWriteDeadline(t) }
 func (c *GateConn) SetReadDeadline(t time.Time) error { return nil }
 func (c *GateConn) SetWriteDeadline(t time.Time) error {
 	c.mu.Lock()
